@@ -15,7 +15,7 @@ use crate::{
             operation::{self, params::Required},
             Errors, IntoResult, Operation,
         },
-        xmlns, ReadError, ReadXml, WriteError, WriteXml,
+        read_text, xmlns, ReadError, ReadXml, WriteError, WriteXml,
     },
     session::Context,
 };
@@ -431,8 +431,7 @@ impl ReadXml for Reply {
                             {
                                 tracing::debug!(?tag);
                                 error_count = Some(
-                                    reader
-                                        .read_text(tag.to_end().name())?
+                                    read_text(reader, tag.to_end().name())?
                                         .trim()
                                         .parse::<usize>()
                                         .map_err(|err| ReadError::Other(err.into()))?,
